@@ -89,7 +89,39 @@ def _roundtrip(R, fmt, tree, opts, cfg):
         return None
     R.check(trees.tree_eq(back, tree), "roundtrip", site,
             lambda: "%s opts=%r: %s" % (fmt, opts, trees.tree_diff(tree, back)))
-    return back
+    # decoding is a function of the bytes: the caller owns the decoded tree and may edit it; the same bytes decoded once
+    # more (by the same and by a new format object) still give the tree that was encoded
+    import copy
+    keep = copy.deepcopy(back)
+    if _scribble(back):
+        R.label("decoded-tree-edited-in-place")
+        for who, fmtr in (("new-object", _get(fmt, **opts)), ("same-bytes-object", _get(fmt, **opts))):
+            try:
+                again = fmtr.loads(cfg, bytes(data))
+            except Exception as exc:
+                R.fail("decode-raises", site + ":again", "%s.loads of the same bytes raised %r the second time" % (fmt, exc))
+                break
+            if not R.check(trees.tree_eq(again, tree), "roundtrip", site + ":decode-again",
+                           lambda: "%s opts=%r: the first decoded tree was edited in place; decoding the same bytes again gives %s" % (fmt, opts, trees.tree_diff(tree, again))):
+                break
+            _scribble(again)
+    return keep
+
+
+def _scribble(tree):
+    """Edit every container of a decoded tree in place. Returns whether anything could be edited."""
+    done = False
+    if isinstance(tree, dict):
+        for v in list(tree.values()):
+            done = _scribble(v) or done
+        tree["zz-scribbled"] = [1]
+        done = True
+    elif isinstance(tree, list):
+        for v in tree:
+            done = _scribble(v) or done
+        tree.append("zz-scribbled")
+        done = True
+    return done
 
 
 def run_case(case, R):
